@@ -309,6 +309,30 @@ Proof.
     exists exp. unfold NNS.get_ns. rewrite names_update_balance, Hsd. apply lookup_insert.
 Qed.
 
+(** What "no method on [n] is authorised" means: transfer, setAdmin, renew,
+    updateSOA of [n], record methods of every name whose token is [n], and
+    registration of names directly below [n]. *)
+Definition nothing_authorised_on (c : nctx) (s : nstate) (n : bytes) : Prop :=
+  (forall t, authorised c s (Transfer t n) = false) /\
+  (forall a, authorised c s (SetAdmin n a) = false) /\
+  (forall y, authorised c s (Renew n y) = false) /\
+  (forall e a b x d, authorised c s (UpdateSOA n e a b x d) = false) /\
+  (forall name, token_id_from_name c s name = Halt n ->
+     (forall t d, authorised c s (AddRecord name t d) = false) /\
+     (forall t i d, authorised c s (SetRecord name t i d) = false) /\
+     (forall t, authorised c s (DeleteRecords name t) = false)) /\
+  (forall sub o e a b x d, parent_name sub = n -> (2 <? level sub)%nat = true ->
+     authorised c s (Register sub o e a b x d) = false).
+
+Lemma fresh_owner_only c' s' n o2 nm exp :
+  get_ns s' n = Some (mkNS (Some o2) nm exp None) -> length o2 = 20%nat ->
+  wit_of c' o2 = false -> nothing_authorised_on c' s' n.
+Proof.
+  intros Hn Hl Hw. eapply unauthorised_on_name; [exact Hn| |].
+  - apply (may_admin_false c' _ o2); cbn; auto. rewrite Hl. reflexivity.
+  - unfold owner_wit. cbn. exact Hw.
+Qed.
+
 (** the token of a live, well-formed, non-TLD name is the name itself *)
 Lemma token_of_live c s n :
   valid_name n = true -> (2 <=? level n)%nat = true -> live hash c s n = true ->
